@@ -33,26 +33,54 @@ Unit(
     canary="result is None",
 )
 
-# the inner step of building the 'Unresolvable cross references' error: the location
-# recorded for a postponed reference is computed by the parser of the model that owns it
+# Building the 'Unresolvable cross references' error.  One unit per model visited (the body
+# of the error loop over `models`): a model that owns postponed references sets the location
+# to its LAST one, computed by its own parser, and the file name to its own; a model without
+# postponed references leaves the recorded location alone.  (The region is the whole body of
+# the outer loop, so hoisting statements between the two loops stays inside the unit.)
+DELAYED = "m._tx_reference_resolver.delayed_crossrefs"
+
 Unit(
-    "model.unresolvable-error.step",
+    "model.unresolvable-error.per-model",
     target="textx/model.py::parse_tree_to_objgraph",
-    region="body:for:m._tx_reference_resolver.delayed_crossrefs",
+    region="body:for:models#2",
     props=["C28", "C09"],
-    params={"m": "obj", "delayed": "obj:ObjCrossRef", "error_text": "str"},
+    params={"m": "obj", "error_text": "str", "line": "any", "col": "any", "filename": "any"},
+    requires=[
+        "is_instance(m._tx_reference_resolver, 'ReferenceResolver')",
+        # entries of the delayed list are (obj, attr, crossref) triples (resolve_one_step appends exactly those)
+        f"forall(lambda j: implies(0 <= j and j < len({DELAYED}), {DELAYED}[j] == ({DELAYED}[j][0], {DELAYED}[j][1],"
+        f" {DELAYED}[j][2]) and is_instance({DELAYED}[j][2], 'ObjCrossRef') and is_str({DELAYED}[j][2].obj_name)))",
+    ],
     calls={
         "m._tx_parser.pos_to_linecol": Ext("pos_to_linecol", returns="tuple", raises=None, pure=True,
                                            ensures=["result == linecol(callee, a0)"]),
+        # any other run-time callable in this region can only be a parser's pos_to_linecol reached
+        # through a local alias
+        "*": Ext("pos_to_linecol", returns="tuple", raises=None, pure=True,
+                 ensures=["result == linecol(callee, a0)"]),
     },
+    loops={f"for:{DELAYED}": Loop(pure=True, inv=[
+        "implies(_i == 0, line == entry_line and col == entry_col and filename == entry_filename"
+        " and error_text == entry_error_text)",
+        f"implies(_i > 0, (line, col) == linecol(m._tx_parser.pos_to_linecol, {DELAYED}[_i - 1][2].position)"
+        " and filename == m._tx_filename)",
+        "error_text.startswith(entry_error_text)",
+    ])},
     ensures=[
         ("C28-location-by-the-owning-models-parser",
-         "(final_line, final_col) == linecol(m._tx_parser.pos_to_linecol, delayed.position)"
-         " and final_filename == m._tx_filename"),
-        ("C09-error-text-names-the-reference",
-         "final_error_text.startswith(error_text) and str(delayed.obj_name) in final_error_text"),
+         f"implies(len({DELAYED}) > 0, (final_line, final_col) == "
+         f"linecol(m._tx_parser.pos_to_linecol, {DELAYED}[len({DELAYED}) - 1][2].position)"
+         " and final_filename == m._tx_filename)"),
+        ("C28-model-without-postponed-references-leaves-the-location-alone",
+         f"implies(len({DELAYED}) == 0, final_line == line and final_col == col and final_filename == filename"
+         " and final_error_text == error_text)"),
+        ("C09-error-text-only-grows", "final_error_text.startswith(error_text)"),
+        # (that the text CONTAINS the name of every postponed reference was tried as a quantified string
+        # invariant; z3 and cvc5 leave its preservation undecided, so it is not claimed - the bounded
+        # battery of C09 checks the names end to end)
     ],
-    canary="final_filename is None",
+    canary=f"len({DELAYED}) == 0",
 )
 
 Unit(
@@ -61,7 +89,7 @@ Unit(
     region="if:unresolved_count > 0",
     props=["C28", "C09"],
     params={"unresolved_count": "int", "models": "list"},
-    loops={"for:models": Loop(modifies=["*"], inv=[], body_unit="model.unresolvable-error.step")},
+    loops={"for:models": Loop(modifies=["*"], inv=[], body_unit="model.unresolvable-error.per-model")},
     ensures=[("no-error-when-everything-resolved", "unresolved_count <= 0")],
     raises={"TextXSemanticError": [
         ("C28-error-carries-the-recorded-location",
@@ -69,3 +97,69 @@ Unit(
          " and exc.filename == final_filename and exc.message == final_error_text)")]},
     canary="unresolved_count > 0",
 )
+
+
+# --------------------------------------------------------------------------
+# native replay: 'Unresolvable cross references' through the public API, the
+# never-resolvable reference placed in each file of a three-file load in turn
+# --------------------------------------------------------------------------
+from txvc.props import replay_for  # noqa: E402
+
+
+@replay_for("model.unresolvable-error.per-model")
+@replay_for("model.unresolvable-error.raise")
+def _replay_unresolvable(model, rec):
+    import os
+    import shutil
+    import tempfile
+
+    from textx import metamodel_from_str
+    from textx.exceptions import TextXSemanticError
+    from textx.scoping import Postponed
+    from textx.scoping.providers import FQNImportURI
+
+    grammar = ("Model: imports*=Import items*=Item uses*=Use; Import: 'import' importURI=STRING;"
+               " Item: 'item' name=ID; Use: 'use' ref=[Item];")
+
+    def make():
+        fqn = FQNImportURI()
+
+        def use_ref(obj, attr, obj_ref):
+            found = fqn(obj, attr, obj_ref)
+            if found is None and obj_ref.obj_name.startswith("ghost"):
+                return Postponed()
+            return found
+
+        mm = metamodel_from_str(grammar)
+        mm.register_scope_providers({"*.*": fqn, "Use.ref": use_ref})
+        return mm
+
+    files = {"main.m": 'import "a.m"\nimport "b.m"\nitem m\nuse x\n', "a.m": "item x\nuse x\n", "b.m": "item y\n\nuse y\n"}
+    bad = []
+    d = tempfile.mkdtemp(prefix="txvc-c28-")
+    try:
+        for victim in files:
+            texts = dict(files)
+            texts[victim] += "\n\n    use ghost1\n"
+            for fn, t in texts.items():
+                with open(os.path.join(d, fn), "w") as f:
+                    f.write(t)
+            t = texts[victim]
+            pos = t.index("ghost1")
+            want = (os.path.join(d, victim), t.count("\n", 0, pos) + 1, pos - t.rfind("\n", 0, pos))
+            try:
+                make().model_from_file(os.path.join(d, "main.m"))
+                bad.append(f"ghost in {victim}: no error")
+            except TextXSemanticError as e:
+                got = (e.filename, e.line, e.col)
+                if got != want:
+                    bad.append(f"never-resolvable reference is in {victim} at line {want[1]} col {want[2]}; "
+                               f"the error names {os.path.basename(str(e.filename))} {e.line}:{e.col}")
+        try:
+            make().model_from_str("item q\n use ghost2")
+        except TextXSemanticError as e:
+            if (e.filename, e.line, e.col) != (None, 2, 6):
+                bad.append(f"string model: error at {(e.filename, e.line, e.col)}, expected (None, 2, 6)")
+    finally:
+        shutil.rmtree(d, ignore_errors=True)
+    return bool(bad), "; ".join(bad) or "unresolvable-reference errors name the owning file and position"
